@@ -1,5 +1,8 @@
-import ZvbiModel.Locks.Lemmas
-import ZvbiModel.Locks.Instance
+import ZvbiModel.Props.C20TableA
+import ZvbiModel.Props.C20TableB
+import ZvbiModel.Props.C20TableC
+import ZvbiModel.Props.C20TableD
+import ZvbiModel.Props.C20Snapshot
 /-!
 # C20 - documented cross-thread use of service decoder and raw decoder is race-free
 
@@ -101,62 +104,37 @@ theorem relock_in_callout_deadlocks :
 
 /-! ## instance: the table extracted from the current source -/
 
-/-- The extracted graphs are well bracketed: the held-set annotation is inductive on every edge of
-every role function (no path re-locks a held mutex or unlocks one it does not hold) and nothing is
-held on entry and on return. -/
-theorem table_well_bracketed : rolesAnnOK = true := by decide +kernel
+/-- **Data-race freedom of the documented use, for all programs and schedules, no exception.**
+Take any number of threads, each running one of the documented roles (any sequence of calls of the
+role's functions, each along any control-flow path, event handlers calling
+`vbi_fetch_cc_page`/`vbi_channel_switched` at every callout), with at most one `vbi_decode` thread.
+No reachable state of any interleaving has two threads about to perform conflicting accesses to a
+listed shared field. -/
+theorem documented_roles_race_free {sys : List (Nat × List Action)} (wr : WellRoled roles sys)
+    {s : State} (rs : Reachable (progsOf sys) s) {i j : Nat} {a b : Action} : ¬ RaceAt s i j a b := by
+  intro race
+  have := drf_of_discipline (discipline_of_table roles_annOK table_discipline wr) rs race
+  simp [noKnown] at this
 
-theorem roles_annOK : ∀ R ∈ roles, R.annOK = true := by
-  have h := table_well_bracketed
-  unfold rolesAnnOK at h
-  exact List.all_eq_true.1 h
-
-/-- Lock discipline of the documented roles (decode | fetch_cc_page | channel_switched | raw decode |
-add/remove/check services): every conflicting pair of accesses to the listed shared fields by two
-roles that may run concurrently is bracketed by a common mutex, except the pairs of K1. -/
-theorem table_discipline_modulo_known : tableDRF knownRace roles = true := by decide +kernel
-
-/-- The raw-decoder and channel-switch parts of the table need no exception at all:
-`vbi_raw_decode`'s unlocked reads of `rd->pattern` / `rd->count[]` conflict with nothing a documented
-concurrent operation writes. -/
-theorem table_discipline_without_caption_reset :
-    tableDRF noKnown (roles.map fun R => { R with fns := R.fns.filter fun c => c.fn != fn_vbi_decode }) = true := by
-  decide +kernel
-
-/-- Lock order event < cc, rd < chswcd on every acquisition, except that `vbi_decode` (single thread,
-sole user of the event mutex) may take the event mutex at any time. -/
-theorem table_lock_order : tableOrdered rank roles = true := by decide +kernel
-
-theorem table_try_free : roles.all Role.tryFree = true := by decide +kernel
-
-/-- Callbacks: every callout delivered while a mutex needed by the handler-safe functions
-(`vbi_fetch_cc_page`, `vbi_channel_switched`) is held is one of K2, and the translator left
-exactly those callouts without the handler calls. -/
-theorem callouts_reentrant_modulo_known :
-    (allBadCallouts.all fun p => knownCallout p.1) = true ∧
-    (allUnexpanded.all fun p => allBadCallouts.contains p) = true := by decide +kernel
-
-/-- The check bites: were `vbi_raw_decoder_resize`/`_parameters`/`_reset` documented as concurrent
-with `vbi_raw_decode`, the discipline would fail (unlocked read of `rd->count[]` vs. locked write). -/
-theorem resize_concurrent_with_decode_would_race : tableDRF noKnown rolesWithExclusive = false := by
-  decide +kernel
-
-/-- Every fetched caption page is a snapshot, every raw decode uses one service set, the channel
-switch countdown is updated atomically: per-mutex protection facts of the table. -/
-theorem table_protection :
-    (roles.all fun R => protectedB mx_cc isCcChannel unlockedCaptionReset R.accs) = true ∧
-    (roles.all fun R => protectedB mx_rd isRd3 noSite R.accs) = true ∧
-    (roles.all fun R => protectedB mx_chswcd isChswcd noSite R.accs) = true := by decide +kernel
-
-/-- **Data-race freedom of the documented use, for all programs and schedules.**  Take any number of
-threads, each running one of the documented roles (any sequence of calls of the role's functions,
-each along any control-flow path, event handlers calling `vbi_fetch_cc_page`/`vbi_channel_switched`
-at every re-entrant callout), with at most one `vbi_decode` thread.  In every reachable state, two
-threads about to perform conflicting accesses to a listed shared field are an instance of K1. -/
+/-- corollary: the statement of the first delivery (every reachable race is K1) -/
 theorem documented_roles_race_free_modulo_known {sys : List (Nat × List Action)} (wr : WellRoled roles sys)
     {s : State} (rs : Reachable (progsOf sys) s) {i j : Nat} {a b : Action} (race : RaceAt s i j a b) :
     knownRace (siteOf a) (siteOf b) = true :=
-  drf_of_discipline (discipline_of_table roles_annOK table_discipline_modulo_known wr) rs race
+  absurd race (documented_roles_race_free wr rs)
+
+/-- **Callbacks are re-entrant, for all programs and schedules.**  In every reachable state of every
+such system, a thread that is about to deliver an event callback holds neither `cc.mutex` nor
+`chswcd_mutex` - the handler may call `vbi_fetch_cc_page` / `vbi_channel_switched` without
+dead-locking on its own thread. -/
+theorem callouts_reentrant {sys : List (Nat × List Action)} (wr : WellRoled roles sys)
+    {s : State} (rs : Reachable (progsOf sys) s) {i : Nat} {h : List Mutex} {site : Site} {re : Bool}
+    {r : List Action} (hi : s[i]? = some ⟨h, .callout site re :: r⟩) : mx_cc ∉ h ∧ mx_chswcd ∉ h := by
+  have tb : ∀ R ∈ roles, badCallouts handlerLocks R.accs = [] := by
+    have := callouts_reentrant_table.1
+    unfold allBadCallouts at this
+    exact List.flatMap_eq_nil_iff.1 this
+  have key := callout_unlocked_of_table roles_annOK tb wr rs hi
+  exact ⟨fun hm => key _ hm (by decide), fun hm => key _ hm (by decide)⟩
 
 /-- **No deadlock, always progress**, for the same systems. -/
 theorem documented_roles_deadlock_free {sys : List (Nat × List Action)} (wr : WellRoled roles sys)
@@ -171,16 +149,36 @@ theorem documented_roles_deadlock_free {sys : List (Nat × List Action)} (wr : W
   have tf := tryFree_of_table (List.all_eq_true.1 table_try_free) wr
   exact ⟨no_deadlock_of_order bal ord hb rs, fun st => no_deadlock_of_order bal ord hb rs (stuck_is_deadlock bal tf rs st)⟩
 
-/-- **Caption fetch sees a snapshot (modulo K1).**  While a thread holds `cc.mutex` (it is inside
-`vbi_fetch_cc_page`, or inside `vbi_decode_caption` between two callbacks), no other thread reads or
-writes `vbi->cc.channel[*]` (pages, hidden flag, cursor ...) except at a site of the unlocked
-caption reset. -/
+/-- **Caption fetch sees a snapshot.**  While a thread holds `cc.mutex` (it is inside
+`vbi_fetch_cc_page`, or inside `vbi_decode_caption` between two callbacks, or inside the caption
+reset), no other thread reads or writes `vbi->cc.channel[*]` (pages, hidden flag, cursor ...). -/
+theorem caption_fetch_snapshot {sys : List (Nat × List Action)} (wr : WellRoled roles sys)
+    {s s' : State} (rs : Reachable (progsOf sys) s) {i j : Nat} {w : Bool} {site : Site}
+    (st : Step s (i, .acc var_cc_channel w site) s') (hij : j ≠ i) {tj : Thread} (hj : s[j]? = some tj)
+    (hm : mx_cc ∈ tj.held) : False := by
+  have := snapshot_consistency (K := noSite) rs st hij hj hm fun _ _ hp hs =>
+    protected_of_table roles_annOK (List.all_eq_true.1 table_protection.1) wr hp (by decide) hs
+  simp [noSite] at this
+
+/-- corollary: the statement of the first delivery -/
 theorem caption_fetch_snapshot_modulo_known {sys : List (Nat × List Action)} (wr : WellRoled roles sys)
     {s s' : State} (rs : Reachable (progsOf sys) s) {i j : Nat} {w : Bool} {site : Site}
     (st : Step s (i, .acc var_cc_channel w site) s') (hij : j ≠ i) {tj : Thread} (hj : s[j]? = some tj)
     (hm : mx_cc ∈ tj.held) : unlockedCaptionReset site = true :=
-  snapshot_consistency rs st hij hj hm fun _ _ hp hs =>
-    protected_of_table roles_annOK (List.all_eq_true.1 table_protection.1) wr hp (by decide) hs
+  (caption_fetch_snapshot wr rs st hij hj hm).elim
+
+/-- **A caption fetch is atomic.**  Over the whole stretch of any schedule during which a thread
+holds `cc.mutex` - e.g. the `memcpy` of the page and the reset of its dirty fields in
+`vbi_fetch_cc_page` - no other thread reads or writes `vbi->cc.channel[*]`. -/
+theorem caption_fetch_atomic {sys : List (Nat × List Action)} (wr : WellRoled roles sys)
+    {s s' : State} {j : Nat} {ls : List (Nat × Action)} (rs : Reachable (progsOf sys) s)
+    (ex : ExecHolding j mx_cc s ls s') {i : Nat} {w : Bool} {site : Site}
+    (hmem : (i, Action.acc var_cc_channel w site) ∈ ls) (hij : i ≠ j) : False := by
+  have := holding_stretch isCcChannel noSite
+    (fun i p x w site h hp hx hs =>
+      protected_of_table roles_annOK (List.all_eq_true.1 table_protection.1) wr hp hx hs)
+    rs ex i var_cc_channel w site hmem hij (by decide)
+  simp [noSite] at this
 
 /-- **Every raw decode uses one consistent service set.**  While a thread holds `rd->mutex` (it is
 inside `vbi_raw_decode`, or inside add/remove/check services), no other thread touches the
